@@ -96,7 +96,7 @@ opt-level = 1
     return exe, None
 
 
-PHYSICS_OPS = {"c09_pad", "c13_sym", "c13_full_ring", "c09_event", "c10_table", "c18_grid", "event", "c19_sort"}
+PHYSICS_OPS = {"c09_pad", "c13_sym", "c13_full_ring", "c09_event", "c10_table", "c18_grid", "c15_cluster", "c15_vertex", "event", "c19_sort"}
 
 
 def run(repo, verif, prop, checks, seed, tier):
